@@ -3,11 +3,17 @@
 package harness
 
 import (
+	"fmt"
+	"net/netip"
 	"testing"
 	"time"
 
+	"github.com/irai/packet"
+
 	"pgregory.net/rapid"
 	"verifharness/drv"
+	"verifharness/gen"
+	"verifharness/ref"
 )
 
 // C04 — host tracking follows the discovery, IP-change and ageing rules (model comparison)
@@ -166,6 +172,119 @@ func TestC04(t *testing.T) {
 	rec.Note("exhaustive: every sequence of length " + string(rune('0'+depth)) + " over the 15-symbol alphabet (fresh session each)")
 	drv.Prop(t, rec, "random", 4000, 100000, func(t *rapid.T) history { return genHistory(t, false, false) },
 		func(tb drv.TB, h history) { runHist(tb, rec, "C04", "random", h, or, histNonTrivial) })
+	// the ageing rules at the scale of a real LAN: 17..250 stations (the small universe above never holds more than a
+	// dozen hosts), all silent, some heard again between the two purges. Every one must go offline at the first purge
+	// after OfflineDeadline and be removed - with its MAC entry - at the first purge after PurgeDeadline, in that very
+	// pass, unless it was heard again.
+	type manyCase struct {
+		N     int   `json:"n"`
+		V6    int   `json:"v6"`    // every V6-th station also has a link-local host (0 = none)
+		Again []int `json:"again"` // stations heard again after the first purge
+	}
+	drv.Prop(t, rec, "many-stations", 150, 3000, func(t *rapid.T) manyCase {
+		c := manyCase{N: rapid.SampledFrom([]int{17, 18, 33, 64, 65, 129, 200, 250}).Draw(t, "n"), V6: rapid.SampledFrom([]int{0, 1, 2, 5}).Draw(t, "v6")}
+		c.Again = rapid.SliceOfNDistinct(rapid.IntRange(0, c.N-1), 0, 5, func(i int) int { return i }).Draw(t, "again")
+		return c
+	}, func(tb drv.TB, c manyCase) {
+		rec.Eval()
+		drv.Begin("C04", "many-stations", 'J', mustJSON(c), 60*time.Second)
+		defer drv.End()
+		w := gen.DefaultWorld()
+		s, _ := newSession(defaultNIC())
+		defer closeSession(s)
+		mac := func(i int) ref.MAC { return ref.MAC{0x00, 0x02, 0x03, 0x10, byte(i >> 8), byte(i)} }
+		ip4 := func(i int) netip.Addr { return netip.AddrFrom4([4]byte{192, 168, 0, byte(2 + i)}) } // .2 .. .251 (router .11 and host .129 are skipped below)
+		lla := func(i int) netip.Addr {
+			a := netip.MustParseAddr("fe80::1:0").As16()
+			a[14], a[15] = byte(i>>8), byte(i)
+			return netip.AddrFrom16(a)
+		}
+		skip := func(i int) bool { return ip4(i) == w.RouterIP || ip4(i) == w.HostIP }
+		buf := make([]byte, packet.EthMaxSize)
+		hear := func(i int) {
+			f := ref.Eth(w.RouterMAC, mac(i), 0x0800, ref.IP4(ref.IP4Hdr{TotalLen: -1, TTL: 64, Proto: 17, Checksum: -1, Src: ip4(i).As4(), Dst: w.RouterIP.As4()}, ref.UDP(40000, 9999, -1, 0, []byte("x"))))
+			s.Parse(buf[:copy(buf, f)])
+			if c.V6 > 0 && i%c.V6 == 0 {
+				f = ref.Eth(w.RouterMAC, mac(i), 0x86dd, ref.IP6(ref.IP6Hdr{PayloadLen: -1, Next: 17, HopLimit: 64, Src: lla(i).As16(), Dst: netip.MustParseAddr("ff02::fb").As16()}, ref.UDP(40000, 9999, -1, 0, []byte("x"))))
+				s.Parse(buf[:copy(buf, f)])
+			}
+		}
+		for i := 0; i < c.N; i++ {
+			if !skip(i) {
+				hear(i)
+			}
+		}
+		drain := func() {
+			for len(s.C) > 0 {
+				<-s.C
+			}
+		}
+		drain()
+		fail := func(sig, format string, args ...interface{}) {
+			rec.Violation(tb, "many-stations", sig, c, format, args...)
+		}
+		state := func(i int) (present, online, macEntry bool) {
+			h := s.FindIP(ip4(i))
+			if h != nil {
+				h.MACEntry.Row.RLock()
+				present, online = true, h.Online
+				h.MACEntry.Row.RUnlock()
+			}
+			return present, online, s.FindMACEntry(hw(mac(i))) != nil
+		}
+		t0 := time.Now()
+		if p, sig, st := drv.Catch(func() { s.VerifPurge(t0.Add(s.OfflineDeadline + time.Second)) }); p != nil {
+			fail(sig, "purge panicked: %v\n%s", p, st)
+			return
+		}
+		waitNoGoroutine(2*time.Second, "packet.(*Session).purge.func")
+		drain()
+		for i := 0; i < c.N; i++ {
+			if skip(i) {
+				continue
+			}
+			if present, online, _ := state(i); !present || online {
+				fail("c04-many-offline", "station %d of %d (silent past OfflineDeadline) after the purge: tracked=%v online=%v, want tracked and offline", i, c.N, present, online)
+				return
+			}
+		}
+		again := map[int]bool{}
+		for _, i := range c.Again {
+			if !skip(i) {
+				again[i] = true
+				hear(i)
+			}
+		}
+		drain()
+		if p, sig, st := drv.Catch(func() { s.VerifPurge(t0.Add(s.PurgeDeadline + 2*time.Second)) }); p != nil {
+			fail(sig, "purge panicked: %v\n%s", p, st)
+			return
+		}
+		waitNoGoroutine(2*time.Second, "packet.(*Session).purge.func")
+		drain()
+		left := 0
+		for i := 0; i < c.N; i++ {
+			if skip(i) {
+				continue
+			}
+			present, _, me := state(i)
+			if again[i] != present || again[i] != me {
+				fail("c04-many-purge", "station %d of %d after the purge past PurgeDeadline: tracked=%v MAC entry=%v, heard again=%v (want removed together with its MAC entry exactly when it stayed silent)", i, c.N, present, me, again[i])
+				return
+			}
+			if v6h := s.FindIP(lla(i)); (v6h != nil) != (again[i] && c.V6 > 0 && i%c.V6 == 0) {
+				fail("c04-many-purge-v6", "station %d of %d: link-local host tracked=%v after the purge, heard again=%v", i, c.N, v6h != nil, again[i])
+				return
+			}
+			if present {
+				left++
+			}
+		}
+		rec.Class(fmt.Sprintf("many-stations: %d stations", c.N))
+		rec.NonTrivial(drv.HashJSON(c), func() interface{} {
+			return map[string]interface{}{"stations": c.N, "heard_again": len(again), "left": left}
+		})
+	})
 }
 
 const c05Rule = "the C04/C06 histories extended with SetDHCPv4IPOffer, Capture and Release, biased to structure-changing operations (several IPs on one MAC, re-binding chains, purge orders); after every op the exported tables are walked: index key = host IP, back-pointers, MAC uniqueness, host-list membership exactly once, online host implies online MAC, and PrintTable must not panic. non-trivial = a history in which the number of hosts decreased; distinct by hash of the op list"
